@@ -76,4 +76,8 @@ theorem meas_total (v0 v1 v2 v3 : V3 ℝ) :
    square-root atoms under a common denominator) are too large for an unstructured `ring_nf` bridge within the default
    heartbeat budget; they are tied to the model by the differential check only (stated in the evidence of C13). -/
 
+
+/-! ### census of data-dependent decisions: the traced code took exactly the branches the model knows about -/
+theorem census_Measures_pcCount : Gen.Measures.pcCount = 4 := rfl
+
 end LapyVerif.Bridge
